@@ -63,6 +63,24 @@ class RowTracker:
 
         return T().visit(copy.deepcopy(e))
 
+    def _decide_none_test(self, test):
+        """`v is None` / `v is not None` where v is bound to a literal None or to a stored per-atom array / call result"""
+        if isinstance(test, ast.Compare) and len(test.ops) == 1 and isinstance(test.ops[0], (ast.Is, ast.IsNot)) \
+                and isinstance(test.comparators[0], ast.Constant) and test.comparators[0].value is None:
+            v = self.subst(test.left)
+            if isinstance(test.left, ast.Name) and test.left.id in self.objs:
+                is_none = False
+            elif isinstance(v, ast.Constant):
+                is_none = v.value is None
+            elif isinstance(v, ast.Subscript) and norm(v.value).endswith(".arrays"):
+                is_none = False  # an entry of Atoms.arrays is an array
+            elif isinstance(v, (ast.Call, ast.IfExp)) and not isinstance(test.left, ast.Constant):
+                return None
+            else:
+                return None
+            return is_none if isinstance(test.ops[0], ast.Is) else not is_none
+        return None
+
     def _alloc(self, call: ast.Call):
         o = self._alloc0(call)
         fn = norm(call.func)
@@ -112,6 +130,11 @@ class RowTracker:
         if isinstance(st, ast.AnnAssign) and st.value is not None:
             st = ast.Assign(targets=[st.target], value=st.value, lineno=st.lineno)
         if isinstance(st, ast.If):
+            dec = self._decide_none_test(st.test)
+            if dec is not None:
+                for x in (st.body if dec else st.orelse):
+                    self.stmt(x)
+                return
             # both arms bind the same single local to a pure expression: a conditional expression
             def single(arm):
                 return len(arm) == 1 and isinstance(arm[0], ast.Assign) and len(arm[0].targets) == 1 and isinstance(arm[0].targets[0], ast.Name)
